@@ -17,17 +17,28 @@ call that last saw traffic on the connection (accept, bytes received or sent) + 
               t >= D, with no new bytes offered to that call, is a violation  [not-closed]
               (tymes are dyadic, so "idle for exactly the tymeout" is an exact comparison)
   persistent  a connection whose request was persistent is never closed for idleness [persistent-closed]
+
+https ("tls": true): the same schedules against the same servers built on the in-memory TLS servant (vlib/fakenet
+FakeServantTls: real tcp.ServerTls / RemoterTls code, fake context whose handshake follows a script).  Each connection has
+"hs": the number of service calls in which its TLS handshake would-blocks before the call in which it completes (0 = completes
+in the accepting call, -1 = never completes).  A client cannot send HTTP bytes before its handshake is complete, so its
+activity is shifted behind the handshake; a connection whose handshake never completes never sends.  While the handshake is
+pending no byte moves, so the deadline stays accept + tymeout ("no traffic for the tymeout and not persistent => closed");
+the call in which the handshake completes may or may not count as traffic (both readings accepted, as after a rewind).
+Signatures of https cases carry the prefix C12/https/ .
 """
 from hypothesis import strategies as st
 
-from vlib import memhttp
+from vlib import fakenet, memhttp
 from vlib.core import Result
 
 PID = "C12"
 RULE = ("cases: server kind (WSGI Server / BareServer) x tymeout in {0.25 .. 8, default} x tock in {1/32 .. 1} (dyadic, at most 128 "
         "tocks per tymeout) x 1-3 connections with schedules silent / dribble (1-6 pieces at generated gaps, some shorter and "
         "some longer than the tymeout) / persistent request then idle / non-persistent request whose answer would-blocks for ever, connected at generated cycles, run for 3 tymeouts past the "
-        "last scheduled activity, optionally with the server wound to another tymist (tyme 0, 5 or 1000) at a generated cycle; non-trivial = some connection has earlier traffic bursts (>= 2 pieces) and then a gap >= tymeout; "
+        "last scheduled activity, optionally with the server wound to another tymist (tyme 0, 5 or 1000) at a generated cycle; "
+        "second search: the same x https (in-memory TLS servant) with a TLS handshake per connection that completes in the accepting "
+        "call, after 1-70 further service calls (shorter or longer than the tymeout) or never; non-trivial = some connection has earlier traffic bursts (>= 2 pieces) and then a gap >= tymeout; "
         "distinct = canonical hash")
 ASSUMPTIONS = [
     "virtual time only: the server is wound to a harness Tymist that advances one tock per service call",
@@ -35,6 +46,10 @@ ASSUMPTIONS = [
     "whose deadline passes in the very call that would read new bytes may be closed or kept - both are accepted",
     "after a rewind to another tymist both readings of 'idle time' are accepted: carried over (earliest close) or started afresh (latest close)",
     "a connection is persistent once the server has parsed a complete keep-alive request on it (the side condition of the statement)",
+    "https: the fake TLS layer moves no bytes of its own; a handshake that would-block is a call in which nothing arrived, the call in "
+    "which it completes may or may not count as traffic (earliest close accept + tymeout, latest close completion + tymeout); a "
+    "connection that is still handshaking is an HTTP server connection in the sense of the statement (it is closed when it has "
+    "had no traffic for the tymeout)",
 ]
 
 PERSIST_REQ = b"GET /p HTTP/1.1\r\nHost: x\r\nContent-Length: 0\r\n\r\n"
@@ -46,12 +61,39 @@ def app(environ, start_response):
     return [b"ok"]
 
 
+class _TlsRig(memhttp.Rig):
+    """memhttp.Rig on the in-memory TLS servant (real tcp.ServerTls / RemoterTls code): an https server."""
+
+    def __init__(self, app=None, tymeout=None, tock=0.125, bare=False, bs=256, **kwa):
+        from hio.base import tyming
+        from hio.core.http import serving
+        self.tymist = tyming.Tymist(tyme=0.0, tock=tock)
+        skw = {"bs": bs}
+        if tymeout is not None:
+            skw["tymeout"] = tymeout
+        self.servant = fakenet.FakeServantTls(**skw)
+        if bare:
+            self.server = serving.BareServer(servant=self.servant, **kwa)
+        else:
+            self.server = serving.Server(servant=self.servant, app=app, **kwa)
+        if hasattr(self.server, 'wind'):
+            self.server.wind(self.tymist.tymen())
+        else:
+            self.servant.wind(self.tymist.tymen())
+        self.clients = {}
+        self.rx = {}
+        self.eof = {}
+        self.nextport = 42000
+
+
 def run_case(case):
     r = Result()
     tock = case["tock"]
     T = case["tymeout"]
+    tls = bool(case.get("tls", False))
+    pre = "C12/https/" if tls else "C12/"
     kw = {} if T is None else {"tymeout": T}
-    rig = memhttp.Rig(app=app, tock=tock, bare=case["bare"], **kw)
+    rig = (_TlsRig if tls else memhttp.Rig)(app=app, tock=tock, bare=case["bare"], **kw)
     Teff = T if T is not None else rig.servant.tymeout
     conns = case["conns"]
     # absolute cycle numbers of the activity of each connection
@@ -60,19 +102,24 @@ def run_case(case):
     for c in conns:
         at = c["at"]
         ev = {}
-        if c["kind"] == "dribble":
-            t = at
+        # https: service calls in which the handshake would-blocks before the one in which it completes; -1 = never completes
+        hs = int(c.get("hs", 0) or 0) if tls else 0
+        at0 = at + max(0, hs)            # the client can act once its handshake is complete
+        if hs < 0:
+            pass                         # handshake never completes: the client can never send anything
+        elif c["kind"] == "dribble":
+            t = at0
             for gap, n in c["pieces"]:
                 t += max(1, gap)
                 ev[t] = b"X" * max(1, n) if ev else b"GET /d HTTP/1.1\r\nHost: x\r\nX-Pad: "
         elif c["kind"] == "stalled":
             # a non-persistent request whose answer cannot be sent: the kernel would-blocks every send (dead reader)
-            ev[at + max(1, c["pieces"][0][0] if c["pieces"] else 1)] = STALL_REQ
+            ev[at0 + max(1, c["pieces"][0][0] if c["pieces"] else 1)] = STALL_REQ
         elif c["kind"] == "persistent":
-            ev[at + max(1, c["pieces"][0][0] if c["pieces"] else 1)] = PERSIST_REQ
+            ev[at0 + max(1, c["pieces"][0][0] if c["pieces"] else 1)] = PERSIST_REQ
         plans.append({"at": at, "ev": ev, "kind": c["kind"], "port": None, "D": None, "closed": None, "persist": False,
-                      "sent": 0})
-        last = max([last, at] + list(ev))
+                      "sent": 0, "hs": hs, "hsdone": hs == 0})
+        last = max([last, at0] + list(ev))
     horizon = last + int(3 * Teff / tock) + 4
     bursts_then_gap = False
     rewind = case.get("rewind")
@@ -89,19 +136,30 @@ def run_case(case):
                 if p["D"] is not None:
                     p["Dearly"] = rig.tymist.tyme + max(0.0, p["D"] - told)
                     p["D"] = rig.tymist.tyme + Teff
+                if p["port"] is not None and p["closed"] is None and not p["hsdone"]:
+                    p["hs_pending_at_rewind"] = True     # discriminator only: names the input class in the signature
         t = rig.tymist.tyme
         fresh = {}
         for i, p in enumerate(plans):
             if cyc == p["at"]:
                 p["port"] = rig.connect()
                 fresh[i] = True            # the accept is traffic seen by this call
+                if tls:
+                    p["ss"] = rig.servant.pending[-1]      # server side socket: its handshake follows the script
+                    p["ss"].hs_script = [["want"]] * (p["hs"] if p["hs"] >= 0 else horizon + 8)
+            hs_now = False
+            if tls and p["hs"] > 0 and cyc == p["at"] + p["hs"] and p["closed"] is None:
+                hs_now = True              # the handshake completes in this call: the client's last flight arrived
+                p["hsdone"] = True
+                fresh[i] = True
+            p["hs_now"] = hs_now
             if p["port"] is not None and cyc in p["ev"] and p["closed"] is None:
                 rig.send(p["port"], p["ev"][cyc])
                 p["sent"] += 1
                 fresh[i] = True
         for p in plans:
             if p["kind"] == "stalled" and p["port"] is not None and not p.get("blocked"):
-                ss = rig.ssock(p["port"])
+                ss = p["ss"] if tls else rig.ssock(p["port"])
                 if ss is not None:
                     ss.send_script = [["block"]] * 100000       # every send of the server on this connection would-blocks
                     p["blocked"] = True
@@ -117,7 +175,7 @@ def run_case(case):
             if p["port"] is None or p["closed"] is not None:
                 continue
             ca = ("127.0.0.1", p["port"])
-            open_now = ca in rig.servant.ixes and not rig.eof[p["port"]]
+            open_now = (ca in rig.servant.ixes or (tls and ca in getattr(rig.servant, "cxes", ()))) and not rig.eof[p["port"]]
             got_bytes = len(rig.rx[p["port"]]) > before_rx.get(i, 0)
             if p["kind"] == "persistent" and got_bytes:
                 p["persist"] = True
@@ -125,23 +183,31 @@ def run_case(case):
             if not open_now:
                 p["closed"] = t
                 if p["persist"]:
-                    r.fail("C12/persistent-closed", "connection %d answered a keep-alive request at an earlier cycle and was closed "
+                    r.fail(pre + "persistent-closed", "connection %d answered a keep-alive request at an earlier cycle and was closed "
                            "at tyme %r (tymeout %r)" % (i, t, Teff))
                 elif D is not None and t < p.get("Dearly", D) and not fresh.get(i):
-                    r.fail("C12/closed-early", "connection %d (%s) closed at tyme %r, last traffic + tymeout = %r" % (
+                    r.fail(pre + "closed-early", "connection %d (%s) closed at tyme %r, last traffic + tymeout = %r" % (
                         i, p["kind"], t, D))
                 continue
             if D is not None and not p["persist"] and not fresh.get(i) and not got_bytes and t >= D:
-                sig = "C12/not-closed(after earlier traffic)" if p["sent"] >= 1 else "C12/not-closed(never sent anything)"
-                r.fail(sig, "connection %d (%s) still open after the service call at tyme %r: last traffic at %r + tymeout %r = %r" % (
+                sig = "not-closed(after earlier traffic)" if p["sent"] >= 1 else "not-closed(never sent anything)"
+                if p.get("hs_pending_at_rewind"):
+                    sig = "not-closed(handshake pending at rewind)"    # whether or not it completed afterwards
+                elif not p["hsdone"]:
+                    sig = "not-closed(handshake pending)"              # never completes, or not within the tymeout
+                r.fail(pre + sig, "connection %d (%s) still open after the service call at tyme %r: last traffic at %r + tymeout %r = %r" % (
                     i, p["kind"], t, D - Teff, Teff, D))
                 p["closed"] = "violation"
                 continue
             if fresh.get(i) or got_bytes:
                 if p["sent"] >= 2 and D is not None and False:
                     pass
+                if p["hs_now"] and D is not None and not got_bytes and cyc not in p["ev"]:
+                    # completing the handshake may or may not count as traffic: the earliest close stays where it was
+                    p["Dearly"] = min(p.get("Dearly", D), D)
+                else:
+                    p.pop("Dearly", None)
                 p["D"] = t + Teff
-                p.pop("Dearly", None)
         rig.tymist.tick()
         if r.failures:
             break
@@ -150,6 +216,13 @@ def run_case(case):
             bursts_then_gap = True          # the run always ends with a gap of 3 tymeouts after the last piece
     r.nontrivial = bursts_then_gap
     r.labels.append("bare" if case["bare"] else "wsgi")
+    if tls:
+        r.labels.append("https")
+        for p in plans:
+            r.labels.append("handshake:" + ("never completes" if p["hs"] < 0 else "in the accepting call" if p["hs"] == 0 else
+                                            "pending >= tymeout" if p["hs"] * tock >= Teff else "pending < tymeout"))
+            if p.get("hs_pending_at_rewind"):
+                r.labels.append("handshake:pending at rewind")
     if rewind:
         r.labels.append("rewound-to-another-tymist")
     for c in conns:
@@ -174,5 +247,23 @@ def _strategy():
         lambda c: (c["tymeout"] if c["tymeout"] is not None else 1.0) / c["tock"] <= 160)
 
 
+def _strategy_tls():
+    """The same schedules against an https server; every connection also has a handshake length (see module docstring)."""
+    def build(tock_i, ratio, bare, default_t, conns, rewind):
+        tock = 1.0 / (1 << tock_i)            # 1, 1/2, ... 1/32
+        T = None if default_t else tock * ratio
+        return {"tock": tock, "tymeout": T, "bare": bare, "conns": conns, "rewind": rewind, "tls": True}
+    piece = st.tuples(st.integers(1, 40), st.integers(1, 5)).map(list)
+    hs = st.one_of(st.just(0), st.just(0), st.integers(1, 6), st.integers(1, 70), st.just(-1))
+    conn = st.fixed_dictionaries({"kind": st.sampled_from(["silent", "dribble", "dribble", "persistent", "stalled"]),
+                                  "at": st.integers(0, 6), "pieces": st.lists(piece, min_size=1, max_size=6), "hs": hs})
+    return st.builds(build, st.integers(0, 5), st.sampled_from([1, 2, 3, 4, 8, 16, 32, 64]), st.booleans(),
+                     st.sampled_from([False, False, False, False, True]), st.lists(conn, min_size=1, max_size=3),
+                     st.one_of(st.none(), st.none(), st.fixed_dictionaries({"at": st.integers(1, 60),
+                                                                            "tyme": st.sampled_from([0.0, 1000.0, 5.0])}))).filter(
+        lambda c: (c["tymeout"] if c["tymeout"] is not None else 1.0) / c["tock"] <= 160)
+
+
 def searches(tier):
-    return [("schedules", _strategy(), 3000 if tier == "quick" else 25000)]
+    return [("schedules", _strategy(), 3000 if tier == "quick" else 25000),
+            ("https-schedules", _strategy_tls(), 2000 if tier == "quick" else 12000)]
